@@ -2784,6 +2784,10 @@ fn directed_inputs(name: &str) -> Vec<(&'static str, Vec<u8>)> {
             let mut ident = git_varint(100_000);
             ident.extend_from_slice(&[0u8; 8]);
             out.push(("directed:untr-identifier-length-beyond-data", index_file(2, 0, &[], &[(b"UNTR", ident)])));
+            // a variable-length integer with more than ten continuation bytes does not fit into 64 bits
+            let mut long_varint = vec![0xffu8; 10];
+            long_varint.extend_from_slice(&[0u8; 4]);
+            out.push(("directed:untr-varint-of-eleven-bytes", index_file(2, 0, &[], &[(b"UNTR", long_varint)])));
             // REUC / link / IEOT / sdir bodies that end early
             out.push(("directed:reuc-truncated-record", index_file(2, 0, &[], &[(b"REUC", b"path\0100644\0".to_vec())])));
             out.push(("directed:link-too-short", index_file(2, 0, &[], &[(b"link", vec![0x33; 21])])));
